@@ -1,5 +1,12 @@
 import Hs.Thm.C05
+import Hs.Thm.C05perm
 #print axioms Hs.C05.find_key_perm
 #print axioms Hs.C05.lookup_perm
 #print axioms Hs.C05.writer_conforms_scalars
 #print axioms Hs.C05.writer_conforms_str
+-- member order independence of the library's visitor model (Hs/Thm/C05perm.lean)
+#print axioms Hs.C05perm.visitMap_perm
+#print axioms Hs.C05perm.fromJson_obj_perm
+#print axioms Hs.C05perm.fromJson_jperm
+#print axioms Hs.C05perm.ordOK_val
+#print axioms Hs.C05perm.C05_order
